@@ -23,6 +23,7 @@ def run(repo, run, tier):
     in_step_test(repo, run, m)
     attributes_and_kinds(repo, run)
     sentinel(repo, run, m)
+    no_duplicates(repo, run, m)
     # 'within tolerance level of a true root', 'lies inside the step in which it was found': a reported root is one the search CERTIFIED by a sign change
     # (or an exact zero); a success decided by comparing |g| with the abscissa tolerance reports end points of steps that contain no crossing
     from .c08 import dim_rule
@@ -42,6 +43,68 @@ def run(repo, run, tier):
     memo_discipline(repo, run, "C07.12", [DS], "the system module (event search functions)")
     from .common import readonly
     readonly(repo, run, "C07.9", DS, ["OdeSystem.events", "OdeSystem.events_dict"], "the event views of the system (events, events_dict)")
+
+
+def no_duplicates(repo, run, m, rule_id="C07.13"):
+    """'each genuine crossing is reported once': a record is appended to the list of events only when (a) nothing has been recorded yet, (b) this event has no record yet
+    (sentinel), or (c) it lies farther than the tolerance from the latest record of the SAME event.  Decided on the truth table of the path condition of every append
+    in the event loop: every satisfying assignment makes one of (a), (b), (c) true.  (One crossing is handed to the loop several times: on the boundary shared by two
+    steps, and - for event functions returning shape (1,) arrays - several times within ONE step, because the activity mask broadcasts.)"""
+    import itertools
+    from ..sym import inline_locals, path_condition, tree_atoms, eval_bool, BoolTracker
+    rid = run.rule(rule_id, "every append to the recorded events is guarded, on every path, by: no record at all / no record of this event (sentinel) / farther than the "
+                            "tolerance from this event's latest record", floor=1)
+    canon = Canon(env=inline_locals(m.fn))
+    apps = [c for c in ast.walk(m.loop) if isinstance(c, ast.Call) and isinstance(c.func, ast.Attribute) and c.func.attr in ("append", "extend", "insert") and
+            is_self_attr(c.func.value, "__events")]
+    if not apps:
+        raise AnalysisError("integrate(): no append to the recorded events in the step loop")
+    for c in apps:
+        bt = BoolTracker(canon=canon)
+        pc, _ = path_condition(c, m.loop, tracker=bt, guards=True)
+        atoms = tree_atoms(pc)
+        if len(atoms) > 14:
+            raise AnalysisError("integrate(): the path condition of an event append has too many atoms")
+        empty, sentinel_, far, neg_sentinel = [], [], [], []
+        for a in atoms:
+            leaf = bt.leaves.get(a)
+            if not isinstance(leaf, tuple):
+                if isinstance(leaf, ast.AST) and is_self_attr(leaf, "__events"):
+                    empty.append(a)
+                continue
+            l, op, r = leaf
+            lt, rt = src(l) if isinstance(l, ast.AST) else str(l), src(r) if isinstance(r, ast.AST) else str(r)
+            # a comparison of this event's entry with a constant: decided at the sentinel value -1 (`== -1`, `< 0`, `<= -1` are true there; `>= 0`, `!= -1` false)
+            import operator
+            ops_ = {"Eq": operator.eq, "NotEq": operator.ne, "Lt": operator.lt, "LtE": operator.le, "Gt": operator.gt, "GtE": operator.ge}
+            try:
+                if lt.startswith("last_occurrence[") and isinstance(r, ast.AST):
+                    at_sentinel = ops_[type(op).__name__](-1, const_value(r))
+                elif rt.startswith("last_occurrence[") and isinstance(l, ast.AST):
+                    at_sentinel = ops_[type(op).__name__](const_value(l), -1)
+                else:
+                    at_sentinel = None
+            except (ValueError, KeyError):
+                at_sentinel = None
+            if at_sentinel is True:
+                sentinel_.append(a)
+            elif at_sentinel is False:
+                neg_sentinel.append(a)
+            big, small = (lt, rt) if isinstance(op, (ast.Gt, ast.GtE)) else (rt, lt) if isinstance(op, (ast.Lt, ast.LtE)) else (None, None)
+            if big is not None and "abs(" in big and "self.__events[last_occurrence[" in big and "epsilon" in small:
+                far.append(a)
+        bad = None
+        for vals in itertools.product((False, True), repeat=len(atoms)):
+            asg = dict(zip(atoms, vals))
+            if eval_bool(pc, asg) and not (any(not asg[a] for a in empty) or any(asg[a] for a in sentinel_) or any(not asg[a] for a in neg_sentinel) or any(asg[a] for a in far)):
+                bad = {a.split("@")[0]: v for a, v in asg.items()}
+                break
+        run.judged(rid, "`%s` guarded by (no records | sentinel | far from own latest record): atoms %s" % (src(c)[:50], [a.split("@")[0][:40] for a in atoms]), ok=bad is None)
+        if bad is not None:
+            run.report(rule_id, DS, c, "a record is appended on a path where records exist, this event has one, and the distance to it was not tested (e.g. %s): one crossing handed "
+                                       "to the loop more than once (the boundary shared by two steps; several copies within one step when an event function returns a shape-(1,) "
+                                       "array and the activity mask broadcasts) is reported more than once" % ({k[:50]: v for k, v in bad.items()},),
+                       text="unguarded event append")
 
 
 def _event_loop(m):
@@ -401,6 +464,34 @@ def attributes_and_kinds(repo, run):
             run.report("C07.6", DS, sts[0] if sts else lp, "entry i of `%s` is not the event's own `%s` attribute (guarded by hasattr): events would be filtered or terminated by "
                                                            "another event's setting" % (attr, attr), text="prepare_events binding of %s" % attr)
     sample_kinds(repo, run, rid, "C07.6")
+
+
+def flags_from_given_object(repo, run, rule_id):
+    """the flags of an event (is_terminal / direction / requires_dstate) are read from the object the caller passed: the loop element of prepare_events is not rebound
+    (unwrapped, replaced by an inner function) before the reads - flags set on a wrapper object (functools.partial, a callable instance) would be ignored"""
+    rid = run.rule(rule_id, "prepare_events reads the flags of an event from the very object in the caller's list: the loop element is never rebound inside the loop", floor=1)
+    pe = repo.get(DS, "prepare_events")
+    run.analysed_fn(DS, pe)
+    loops = [st for st in ast.walk(pe) if isinstance(st, ast.For) and isinstance(st.iter, ast.Call) and fname(st.iter) == "enumerate" and src(st.iter.args[0]) == "events"]
+    if len(loops) != 1:
+        raise AnalysisError("prepare_events: `for i, event in enumerate(events)` not found")
+    lp = loops[0]
+    ev = lp.target.elts[1].id
+    stores = [n for st in lp.body for n in ast.walk(st) if isinstance(n, ast.Name) and n.id == ev and isinstance(n.ctx, (ast.Store, ast.Del))]
+    # the list iterated is the caller's list (or a list()/tuple() of it), not a mapped one
+    pre = [st for st in ast.walk(pe) if isinstance(st, ast.Assign) and any(isinstance(t, ast.Name) and t.id == "events" for t in st.targets)]
+    mapped = [st for st in pre if not (src(st.value) in ("list(events)", "tuple(events)", "[events]", "[]", "events") or (isinstance(st.value, (ast.List, ast.Tuple)) and len(st.value.elts) <= 1))]
+    ok = not stores and not mapped
+    run.judged(rid, "loop element `%s` of prepare_events: %d rebinding(s) in the loop, %d re-mapping(s) of the list" % (ev, len(stores), len(mapped)), ok=ok)
+    for n in stores:
+        st = n
+        while not isinstance(st, ast.stmt):
+            st = st._parent
+        run.report(rule_id, DS, st, "the event object is replaced inside prepare_events' loop before its flags are read (`%s`): is_terminal / direction set on the object the "
+                                    "caller passed (a functools.partial, a callable instance wrapping a function) are ignored - a terminal event no longer stops the run" % src(st)[:80],
+                   text="event object rebound in prepare_events")
+    for st in mapped:
+        run.report(rule_id, DS, st, "prepare_events replaces the caller's event objects before reading their flags (`%s`)" % src(st)[:80], text="event list re-mapped in prepare_events")
 
 
 def sample_kinds(repo, run, rid, rule_id):
